@@ -159,3 +159,66 @@ extern "C" int copies()
   vf_reach("end");
   return 0;
 }
+
+// assignment of a String / List / Array / HashMap that lives inside the target's own payload (descending into a tree):
+// as if the argument had been copied first
+extern "C" int nested_assign()
+{
+  {
+    unsigned c = vf_pick(6);
+    Variant v;
+    if(c == 0)
+    {
+      v.toList().append(Variant(String("first element")));
+      Variant two(2); v.toList().append(two);
+      v = v.toList().front().toString();                  // String& into v's payload
+      const Variant& cv = v;
+      vf_assert(cv.getType() == Variant::stringType && cv.toString() == "first element", "v = own element's string");
+    }
+    else if(c == 1)
+    {
+      Variant m; Variant five(5); m.toMap().append(String("k"), five);
+      v.toList().append(m);
+      const Variant& cv = v;
+      v = cv.toList().front().toMap();                     // const HashMap& into v's payload (type changes: new block)
+      vf_assert(cv.getType() == Variant::mapType && cv.toMap().size() == 1, "v = own element's map: size");
+      vf_assert(cv.toMap().find(String("k")) != cv.toMap().end() && cv.toMap().find(String("k"))->toInt() == 5, "v = own element's map: entry");
+    }
+    else if(c == 2)
+    {
+      Variant l; Variant one(1), two(2); l.toList().append(one); l.toList().append(two);
+      v.toList().append(l);
+      const Variant& cv = v;
+      v = cv.toList().front().toList();                    // same type, unshared: in-place branch
+      vf_assert(cv.getType() == Variant::listType && cv.toList().size() == 2, "v = own element's list: size");
+      vf_assert(cv.toList().front().toInt() == 1 && cv.toList().back().toInt() == 2, "v = own element's list: elements");
+    }
+    else if(c == 3)
+    {
+      Variant a; Variant one(1), two(2); a.toArray().append(one); a.toArray().append(two);
+      v.toArray().append(a);
+      const Variant& cv = v;
+      v = cv.toArray()[0].toArray();
+      vf_assert(cv.getType() == Variant::arrayType && cv.toArray().size() == 2, "v = own element's array: size");
+      vf_assert(cv.toArray()[0].toInt() == 1 && cv.toArray()[1].toInt() == 2, "v = own element's array: elements");
+    }
+    else if(c == 4)
+    {
+      Variant child; Variant seven(7); child.toMap().append(String("x"), seven);
+      v.toMap().append(String("child"), child);
+      const Variant& cv = v;
+      v = cv.toMap().find(String("child"))->toMap();       // in-place branch of the map overload
+      vf_assert(cv.getType() == Variant::mapType && cv.toMap().size() == 1, "v = own child map: size");
+      vf_assert(cv.toMap().find(String("x")) != cv.toMap().end() && cv.toMap().find(String("x"))->toInt() == 7, "v = own child map: entry");
+    }
+    else
+    {
+      v.toMap().append(String("name"), Variant(String("value text")));
+      v = v.toMap().find(String("name"))->toString();      // String& into v's payload, from a map
+      const Variant& cv = v;
+      vf_assert(cv.getType() == Variant::stringType && cv.toString() == "value text", "v = own map entry's string");
+    }
+  }
+  vf_reach("end");
+  return 0;
+}
